@@ -295,9 +295,11 @@ class SED(object):
             raise ValueError("Frequencies are not set")
         else:
             twav['FREQUENCY'] = self.nu
-        twav.sort('FREQUENCY')
 
-        # TODO: here sorting needs to be applied to fluxes too?
+        # The file stores the SED in order of increasing frequency: the same
+        # ordering has to be applied to the fluxes and errors below
+        order = np.argsort(twav['FREQUENCY'])
+        twav = twav[order]
 
         hdu1 = fits.BinTableHDU(np.array(twav))
         hdu1.columns[0].unit = self.wav.unit.to_string(format='fits')
@@ -319,15 +321,14 @@ class SED(object):
 
         # Create flux table
         tflux = Table()
-        tflux['TOTAL_FLUX'] = self.flux
         if self.flux is None:
             raise ValueError("Fluxes are not set")
         else:
-            tflux['TOTAL_FLUX'] = self.flux
+            tflux['TOTAL_FLUX'] = self.flux[:, order]
         if self.error is None:
             raise ValueError("Errors are not set")
         else:
-            tflux['TOTAL_FLUX_ERR'] = self.error
+            tflux['TOTAL_FLUX_ERR'] = self.error[:, order]
         hdu3 = fits.BinTableHDU(np.array(tflux))
         hdu3.columns[0].unit = self.flux.unit.to_string(format='fits')
         hdu3.columns[1].unit = self.error.unit.to_string(format='fits')
